@@ -40,7 +40,8 @@ Lemma truth_bool : forall b w, truth (VBool b) w = b.
 Proof. reflexivity. Qed.
 
 Global Opaque binary unary truth index_get index_set iterate release getattr call_builtin bind_args
-       inplace_add inplace_pipe unpack alloc_list alloc_dict universal str_in index_get_opt slice_op.
+       inplace_add inplace_pipe unpack alloc_list alloc_dict universal str_in index_get_opt slice_op
+       starstar_args star_args.
 
 Lemma St_eq : forall fid C pc pc' σ σ' L I fv K g w,
   pc = pc' -> σ = σ' -> St (Fr fid C pc σ L I fv) K g w = St (Fr fid C pc' σ' L I fv) K g w.
@@ -179,28 +180,45 @@ Section Expr.
     Lemma gen_dict : forall kvs, ge (EDict kvs) = MAKEDICT :: flat_map (entry_code p ls) kvs.
     Proof. reflexivity. Qed.
 
-    Lemma gen_call : forall fn_ args ps, ok_args args = true ->
-      ge (ECall fn_ args ps) = ge fn_ ++ flat_map (arg_code p ls) args ++ [CALL 0 (count_pos args) (count_named args) ps].
+    (* the three passes of fcomp.args over the argument list coincide with one pass when
+       the arguments come in the order positional, named, *args, **kwargs *)
+    Lemma gen_call : forall fn_ args ps, pos_then_named args = true ->
+      ge (ECall fn_ args ps) = ge fn_ ++ flat_map (arg_code p ls) args
+                               ++ [CALL ((if has_star args then 1 else 0) + (if has_ss args then 2 else 0))
+                                        (count_pos args) (count_named args) ps].
     Proof.
-      intros fn_ args ps Hok. unfold gen_expr at 1. simpl. f_equal.
-      assert (H : forall l, ok_args l = true ->
-                flat_map (fun a => if (match a with APos _ => true | _ => false end) || (match a with ANamed _ _ => true | _ => false end)
+      intros fn_ args ps Hsh. unfold gen_expr at 1. simpl. f_equal.
+      set (A := fun l : list arg => flat_map (fun a => if (match a with APos _ => true | _ => false end) || (match a with ANamed _ _ => true | _ => false end)
                                    then match a with APos e | AStar e | AStarStar e => fst (gen p ls [] e) | ANamed k e => CONSTANT (VStr k) :: fst (gen p ls [] e) end
-                                   else []) l = flat_map (arg_code p ls) l
-                /\ flat_map (fun a => if (match a with AStar _ => true | _ => false end)
+                                   else []) l).
+      set (B := fun l : list arg => flat_map (fun a => if (match a with AStar _ => true | _ => false end)
                                       then match a with APos e | AStar e | AStarStar e => fst (gen p ls [] e) | ANamed k e => CONSTANT (VStr k) :: fst (gen p ls [] e) end
-                                      else []) l = []
-                /\ flat_map (fun a => if (match a with AStarStar _ => true | _ => false end)
+                                      else []) l).
+      set (Cc := fun l : list arg => flat_map (fun a => if (match a with AStarStar _ => true | _ => false end)
                                       then match a with APos e | AStar e | AStarStar e => fst (gen p ls [] e) | ANamed k e => CONSTANT (VStr k) :: fst (gen p ls [] e) end
-                                      else []) l = []
-                /\ existsb (fun a => match a with AStar _ => true | _ => false end) l = false
-                /\ existsb (fun a => match a with AStarStar _ => true | _ => false end) l = false).
-      { induction l as [|a l IH]; intros Hl; simpl in *; [repeat split; auto|].
-        apply andb_true_iff in Hl. destruct Hl as [Ha Hl].
-        destruct (IH Hl) as [H1 [H2 [H3 [H4 H5]]]].
-        destruct a; try discriminate; simpl; rewrite H1, H2, H3, H4, H5; repeat split; auto. }
-      destruct (H args Hok) as [H1 [H2 [H3 [H4 H5]]]].
-      rewrite H1, H2, H3, H4, H5. simpl. reflexivity.
+                                      else []) l).
+      change (A args ++ B args ++ Cc args ++ [CALL ((if existsb (fun a => match a with AStar _ => true | _ => false end) args then 1 else 0)
+                                                    + (if existsb (fun a => match a with AStarStar _ => true | _ => false end) args then 2 else 0))
+                                                   (length (filter (fun a => match a with APos _ => true | _ => false end) args))
+                                                   (length (filter (fun a => match a with ANamed _ _ => true | _ => false end) args)) ps]
+              = flat_map (arg_code p ls) args ++ [CALL ((if has_star args then 1 else 0) + (if has_ss args then 2 else 0)) (count_pos args) (count_named args) ps]).
+      assert (H2 : forall l, shape2 l = true -> A l = [] /\ B l = [] /\ Cc l = flat_map (arg_code p ls) l).
+      { intros [|[| | |e] [|]]; simpl; intros; try discriminate; repeat split; auto. }
+      assert (H1 : forall l, shape1 l = true -> A l ++ B l ++ Cc l = flat_map (arg_code p ls) l).
+      { induction l as [|a l IH]; simpl; intros Hl; auto.
+        destruct a; try discriminate.
+        - pose proof (IH Hl) as E. unfold A, B, Cc in *. simpl. rewrite <- E. rewrite <- ?app_assoc. reflexivity.
+        - destruct (H2 l Hl) as [E1 [E2 E3]]. unfold A, B, Cc in *. simpl. rewrite E1, E2, E3.
+          rewrite ?app_nil_r. reflexivity.
+        - destruct l; try discriminate. unfold A, B, Cc. simpl. rewrite ?app_nil_r. reflexivity. }
+      assert (H0 : forall l, pos_then_named l = true -> A l ++ B l ++ Cc l = flat_map (arg_code p ls) l).
+      { induction l as [|a l IH]; simpl; intros Hl; auto.
+        destruct a; try discriminate.
+        - pose proof (IH Hl) as E. unfold A, B, Cc in *. simpl. rewrite <- E. rewrite <- ?app_assoc. reflexivity.
+        - pose proof (H1 l Hl) as E. unfold A, B, Cc in *. simpl. rewrite <- E. rewrite <- ?app_assoc. reflexivity.
+        - destruct (H2 l Hl) as [E1 [E2 E3]]. unfold A, B, Cc in *. simpl. rewrite E1, E2, E3. rewrite ?app_nil_r. reflexivity.
+        - destruct l; try discriminate. unfold A, B, Cc. simpl. rewrite ?app_nil_r. reflexivity. }
+      rewrite !app_assoc. rewrite <- (app_assoc (A args)). rewrite (H0 args Hsh). reflexivity.
     Qed.
 
     Lemma gc_not : forall ps e t f, gc (EUnary UNot ps e) t f = gc e f t. Proof. reflexivity. Qed.
@@ -227,12 +245,16 @@ Section Expr.
   Proof. induction nm as [|[k v] nm IH]; simpl; auto. rewrite IH. reflexivity. Qed.
   Lemma popn_flatkw : forall nm σ, popn (2 * length nm) (rev (flatkw nm) ++ σ) [] = Some (flatkw nm, σ).
   Proof. intros. rewrite <- flatkw_length. apply popn_rev. Qed.
-  Lemma named_only_no_pos : forall l, forallb is_named_arg l = true -> count_pos l = 0.
-  Proof. induction l as [|a l IH]; intros H; simpl in *; auto. apply andb_true_iff in H. destruct H as [Ha Hl].
-         destruct a; try discriminate. apply IH; auto. Qed.
-  Lemma named_only_shape : forall l, forallb is_named_arg l = true -> pos_then_named l = true.
-  Proof. induction l as [|a l IH]; intros H; simpl in *; auto. apply andb_true_iff in H. destruct H as [Ha Hl].
-         destruct a; try discriminate. auto. Qed.
+  Lemma shape2_facts : forall l, shape2 l = true ->
+    count_pos l = 0 /\ count_named l = 0 /\ has_star l = false /\ pos_then_named l = true.
+  Proof. intros [|[| | |e] [|]]; simpl; intros; try discriminate; repeat split; auto. Qed.
+  Lemma shape1_facts : forall l, shape1 l = true -> count_pos l = 0 /\ pos_then_named l = true.
+  Proof.
+    induction l as [|a l IH]; simpl; intros H; auto. destruct a; try discriminate.
+    - destruct (IH H). split; auto.
+    - destruct (shape2_facts l H) as [A [_ [_ _]]]. split; auto.
+    - destruct l; try discriminate. split; auto.
+  Qed.
 
   Lemma evals_length : forall n stk ρ es s vs s', evals p n stk ρ es s = Ok (vs, s') -> length vs = length es.
   Proof.
@@ -464,23 +486,36 @@ Section Expr.
     - (* ECall *)
       apply andb_true_iff in Hok. destruct Hok as [Hok Hshape]. apply andb_true_iff in Hok. destruct Hok as [Hf Hargs].
       change (ok_args args = true) in Hargs.
-      rewrite (gen_call _ e args p0 Hargs) in *. pcode_split.
+      rewrite (gen_call _ e args p0 Hshape) in *. pcode_split.
       codeof e ltac:(fun Hc => pose proof (IHE stk ρ e s fid C fv K pc σ I brk cont Hf Hwf Hstk Hc) as IH1).
       simpl eval.
       destruct (eval p n stk ρ e s) as [[vf s1]| | |]; cbn [sim fst snd] in *; auto.
       match goal with Hcc : pcode_at _ _ (flat_map _ args) _ _ |- _ =>
-        pose proof (IHA stk ρ args [] [] s1 fid C fv K _ (vf :: σ) I brk cont Hargs Hshape Hwf Hstk Hcc) as IHa end.
+        pose proof (IHA stk ρ args [] [] None None s1 fid C fv K _ (vf :: σ) I brk cont Hargs Hwf Hstk Hcc) as IHa end.
       destruct (eval_args p n stk ρ args [] [] None None s1) as [r| | |]; cbn [sim fst snd] in *; auto;
         try (hstar IH1; hchain IHa).
-      destruct IHa as [vs [nm [s2 [-> [Hlen [Hlen2 IHa]]]]]]. simpl.
-      rewrite !app_nil_r.
+      destruct IHa as [vs [nm [sa [ss [s2 [-> [Hlen [Hlen2 [Hsa [Hss IHa]]]]]]]]]]. specialize (IHa Hshape). simpl.
+      assert (Hmode : (if has_star args then 1 else 0) + (if has_ss args then 2 else 0) = mode_of sa ss).
+      { unfold mode_of. destruct (has_star args), (has_ss args); destruct sa, ss; subst; try congruence; try discriminate; reflexivity. }
+      assert (Hst : (if has_ss args then optl ss else []) ++ (if has_star args then optl sa else []) = optl ss ++ optl sa).
+      { destruct (has_star args), (has_ss args); subst; reflexivity. }
       match goal with Hcc : nth_error C ?q = Some (CALL _ _ _ _) |- _ =>
-        rewrite <- Hlen, <- Hlen2 in Hcc;
-        pose proof (IHCa stk vf vs nm p0 s2 fid C fv K q σ ρ I Hstk Hcc) as IHc end.
-      destruct (call p n stk vf vs nm p0 s2) as [[r s3]| | |]; cbn [sim fst snd] in *; auto.
-      + chain IH1. chain IHa. chain IHc. fin.
-      + hstar IH1. hstar IHa. hchain IHc.
-      + hstar IH1. hstar IHa. hchain IHc.
+        rewrite <- Hlen, <- Hlen2, Hmode in Hcc;
+        pose proof (IHCa stk vf vs nm sa ss p0 s2 fid C fv K q σ ρ I Hstk Hcc) as IHc end.
+      unfold ref_call in IHc.
+      assert (Hpre : star cp fn (S1 fid C fv K pc σ ρ I s)
+                       (S1 fid C fv K (pc + length (gen_expr p (map fst ρ) e) + length (flat_map (arg_code p (map fst ρ)) args))
+                           (optl ss ++ optl sa ++ rev (flatkw nm) ++ rev vs ++ vf :: σ) ρ I s2)).
+      { chain IH1. chain IHa. norm_state. apply star_eq. f_equal. f_equal. f_equal.
+        rewrite (app_assoc _ _ (rev (flatkw nm) ++ _)). rewrite Hst. rewrite <- !app_assoc. reflexivity. }
+      destruct (lift (starstar_args ss (rw s2)) p0 (rw s2)) as [kw2| | |]; cbn [sim fst snd] in *; auto;
+        try (hstar Hpre; hchain IHc).
+      destruct (lift (star_args sa (rw s2)) p0 (rw s2)) as [pos2| | |]; cbn [sim fst snd] in *; auto;
+        try (hstar Hpre; hchain IHc).
+      destruct (call p n stk vf (vs ++ pos2) (nm ++ kw2) p0 s2) as [[r s3]| | |]; cbn [sim fst snd] in *; auto.
+      + chain Hpre. chain IHc. fin.
+      + hstar Hpre. hchain IHc.
+      + hstar Hpre. hchain IHc.
     - (* ESlice *)
       apply andb_true_iff in Hok. destruct Hok as [Hok Hst]. apply andb_true_iff in Hok. destruct Hok as [Hok Hhi].
       apply andb_true_iff in Hok. destruct Hok as [Hx Hlo].
@@ -664,22 +699,22 @@ Section Expr.
   Lemma Ar_step : forall n, E p n -> Ar p n -> Ar p (S n).
   Proof.
     intros n IHE IHA.
-    unfold Ar; intros stk ρ args acc nacc s fid C fv K pc σ I brk cont Hok Hshape Hwf Hstk Hcode.
+    unfold Ar; intros stk ρ args acc nacc sa0 ss0 s fid C fv K pc σ I brk cont Hok Hwf Hstk Hcode.
     destruct args as [|a args]; simpl eval_args.
-    - cbn [sim]. exists [], [], s. rewrite !app_nil_r. repeat split; auto. fin.
+    - cbn [sim]. exists [], [], sa0, ss0, s. rewrite !app_nil_r. repeat split; auto. intros _. fin.
     - simpl in Hok. apply andb_true_iff in Hok. destruct Hok as [He Hes].
-      destruct a; try discriminate; simpl in Hcode, Hshape; pcode_split.
+      destruct a; simpl in Hcode; pcode_split.
       + (* positional *)
         codeof e ltac:(fun Hc => pose proof (IHE stk ρ e s fid C fv K pc σ I brk cont He Hwf Hstk Hc) as IH1).
         destruct (eval p n stk ρ e s) as [[v s1]| | |]; cbn [sim fst snd] in *; auto.
         match goal with Hcc : pcode_at _ _ (flat_map _ args) _ _ |- _ =>
-          pose proof (IHA stk ρ args (acc ++ [v]) nacc s1 fid C fv K _ (v :: σ) I brk cont Hes Hshape Hwf Hstk Hcc) as IH2 end.
-        destruct (eval_args p n stk ρ args (acc ++ [v]) nacc None None s1) as [r| | |]; cbn [sim fst snd] in *; auto.
-        * destruct IH2 as [vs [nm [s2 [-> [Hl1 [Hl2 IH2]]]]]].
-          exists (v :: vs), nm, s2. rewrite <- app_assoc. simpl. repeat split; auto.
+          pose proof (IHA stk ρ args (acc ++ [v]) nacc sa0 ss0 s1 fid C fv K _ (v :: σ) I brk cont Hes Hwf Hstk Hcc) as IH2 end.
+        destruct (eval_args p n stk ρ args (acc ++ [v]) nacc sa0 ss0 s1) as [r| | |]; cbn [sim fst snd] in *; auto.
+        * destruct IH2 as [vs [nm [sa [ss [s2 [-> [Hl1 [Hl2 [Hsa [Hss IH2]]]]]]]]]].
+          exists (v :: vs), nm, sa, ss, s2. rewrite <- app_assoc. simpl. repeat split; auto.
           -- unfold count_pos in *. simpl. lia.
-          -- chain IH1. chain IH2. norm_state. apply star_eq. f_equal. f_equal. f_equal.
-             ++ rewrite app_length. lia.
+          -- intros Hsh. specialize (IH2 Hsh). chain IH1. chain IH2. norm_state. apply star_eq. f_equal. f_equal. f_equal.
+             ++ rewrite ?app_length; simpl; lia.
              ++ simpl. rewrite <- !app_assoc. reflexivity.
         * hstar IH1. hchain IH2.
         * hstar IH1. hchain IH2.
@@ -690,18 +725,50 @@ Section Expr.
         destruct (eval p n stk ρ e s) as [[v s1]| | |]; cbn [sim fst snd] in *; auto;
           try (hstar Hpre; hchain IH1).
         match goal with Hcc : pcode_at _ _ (flat_map _ args) _ _ |- _ =>
-          pose proof (IHA stk ρ args acc (nacc ++ [(name, v)]) s1 fid C fv K _ (v :: VStr name :: σ) I brk cont Hes
-                          (named_only_shape _ Hshape) Hwf Hstk Hcc) as IH2 end.
-        destruct (eval_args p n stk ρ args acc (nacc ++ [(name, v)]) None None s1) as [r| | |]; cbn [sim fst snd] in *; auto.
-        * destruct IH2 as [vs [nm [s2 [-> [Hl1 [Hl2 IH2]]]]]].
-          rewrite (named_only_no_pos _ Hshape) in Hl1. destruct vs; [|discriminate].
-          exists [], ((name, v) :: nm), s2. rewrite <- app_assoc. simpl. repeat split; auto.
-          -- unfold count_pos. simpl. symmetry. apply (named_only_no_pos _ Hshape).
+          pose proof (IHA stk ρ args acc (nacc ++ [(name, v)]) sa0 ss0 s1 fid C fv K _ (v :: VStr name :: σ) I brk cont Hes Hwf Hstk Hcc) as IH2 end.
+        destruct (eval_args p n stk ρ args acc (nacc ++ [(name, v)]) sa0 ss0 s1) as [r| | |]; cbn [sim fst snd] in *; auto.
+        * destruct IH2 as [vs [nm [sa [ss [s2 [-> [Hl1 [Hl2 [Hsa [Hss IH2]]]]]]]]]].
+          exists vs, ((name, v) :: nm), sa, ss, s2. rewrite <- app_assoc. simpl. repeat split; auto.
           -- unfold count_named in *. simpl. lia.
-          -- chain Hpre. chain IH1. chain IH2. norm_state. apply star_eq. f_equal. f_equal. f_equal.
-             ++ simpl. rewrite app_length. simpl. lia.
+          -- intros Hsh. destruct (shape1_facts _ Hsh) as [Hcp Hptn]. specialize (IH2 Hptn).
+             rewrite Hcp in Hl1. destruct vs; [|discriminate].
+             chain Hpre. chain IH1. chain IH2. norm_state. apply star_eq. f_equal. f_equal. f_equal.
+             ++ simpl; rewrite ?app_length; simpl; lia.
              ++ simpl. rewrite <- !app_assoc. reflexivity.
         * hstar Hpre. hstar IH1. hchain IH2.
         * hstar Hpre. hstar IH1. hchain IH2.
+      + (* *args *)
+        codeof e ltac:(fun Hc => pose proof (IHE stk ρ e s fid C fv K pc σ I brk cont He Hwf Hstk Hc) as IH1).
+        destruct (eval p n stk ρ e s) as [[v s1]| | |]; cbn [sim fst snd] in *; auto.
+        match goal with Hcc : pcode_at _ _ (flat_map _ args) _ _ |- _ =>
+          pose proof (IHA stk ρ args acc nacc (Some v) ss0 s1 fid C fv K _ (v :: σ) I brk cont Hes Hwf Hstk Hcc) as IH2 end.
+        destruct (eval_args p n stk ρ args acc nacc (Some v) ss0 s1) as [r| | |]; cbn [sim fst snd] in *; auto.
+        * destruct IH2 as [vs [nm [sa [ss [s2 [-> [Hl1 [Hl2 [Hsa [Hss IH2]]]]]]]]]].
+          exists vs, nm, sa, ss, s2. repeat split; auto.
+          -- destruct (has_star args); [exact Hsa | subst; discriminate].
+          -- intros Hsh. destruct (shape2_facts _ Hsh) as [Hcp [Hcn [Hhs Hptn]]]. specialize (IH2 Hptn).
+             rewrite Hhs in *. subst sa. rewrite Hcp in Hl1. rewrite Hcn in Hl2.
+             destruct vs; [|discriminate]. destruct nm; [|discriminate].
+             chain IH1. chain IH2. norm_state. apply star_eq. apply St_eq.
+             ++ simpl; len_norm; lia.
+             ++ simpl. rewrite ?app_nil_r. rewrite <- ?app_assoc. reflexivity.
+        * hstar IH1. hchain IH2.
+        * hstar IH1. hchain IH2.
+      + (* **kwargs *)
+        codeof e ltac:(fun Hc => pose proof (IHE stk ρ e s fid C fv K pc σ I brk cont He Hwf Hstk Hc) as IH1).
+        destruct (eval p n stk ρ e s) as [[v s1]| | |]; cbn [sim fst snd] in *; auto.
+        match goal with Hcc : pcode_at _ _ (flat_map _ args) _ _ |- _ =>
+          pose proof (IHA stk ρ args acc nacc sa0 (Some v) s1 fid C fv K _ (v :: σ) I brk cont Hes Hwf Hstk Hcc) as IH2 end.
+        destruct (eval_args p n stk ρ args acc nacc sa0 (Some v) s1) as [r| | |]; cbn [sim fst snd] in *; auto.
+        * destruct IH2 as [vs [nm [sa [ss [s2 [-> [Hl1 [Hl2 [Hsa [Hss IH2]]]]]]]]]].
+          exists vs, nm, sa, ss, s2. repeat split; auto.
+          -- destruct (has_ss args); [exact Hss | subst; discriminate].
+          -- intros Hsh. destruct args; [|discriminate]. specialize (IH2 eq_refl).
+             simpl in Hsa, Hss, Hl1, Hl2. subst sa ss. destruct vs; [|discriminate]. destruct nm; [|discriminate].
+             chain IH1. chain IH2. norm_state. apply star_eq. apply St_eq.
+             ++ simpl; len_norm; lia.
+             ++ simpl. rewrite ?app_nil_r. reflexivity.
+        * hstar IH1. hchain IH2.
+        * hstar IH1. hchain IH2.
   Qed.
 End Expr.
